@@ -167,10 +167,16 @@ func (e *Encoder) binop(op token.Token, x, y string, t types.Type, yt types.Type
 				if signed {
 					return fmt.Sprintf("(bvsdiv %s %s)", x, y), nil
 				}
+				if c, ok := e.litValue(y); ok && c.Sign() > 0 && new(big.Int).And(c, new(big.Int).Sub(c, big.NewInt(1))).Sign() == 0 {
+					return fmt.Sprintf("(bvlshr %s (_ bv%d %d))", x, c.BitLen()-1, w), nil
+				}
 				return fmt.Sprintf("(bvudiv %s %s)", x, y), nil
 			case token.REM:
 				if signed {
 					return fmt.Sprintf("(bvsrem %s %s)", x, y), nil
+				}
+				if c, ok := e.litValue(y); ok && c.Sign() > 0 && new(big.Int).And(c, new(big.Int).Sub(c, big.NewInt(1))).Sign() == 0 {
+					return fmt.Sprintf("(bvand %s (_ bv%s %d))", x, new(big.Int).Sub(c, big.NewInt(1)).String(), w), nil
 				}
 				return fmt.Sprintf("(bvurem %s %s)", x, y), nil
 			case token.AND:
